@@ -1,3 +1,4 @@
+mod adv;
 mod cache;
 mod chan;
 mod compat;
@@ -10,6 +11,52 @@ mod timeconv;
 mod winst;
 
 use serde_json::{Value, json};
+use std::alloc::{GlobalAlloc, Layout, System};
+use std::sync::atomic::{AtomicUsize, Ordering};
+
+/// Counting allocator: current and peak number of live heap bytes (C06 memory bound).
+struct Counting;
+static CUR: AtomicUsize = AtomicUsize::new(0);
+static PEAK: AtomicUsize = AtomicUsize::new(0);
+unsafe impl GlobalAlloc for Counting {
+    unsafe fn alloc(&self, l: Layout) -> *mut u8 {
+        let p = unsafe { System.alloc(l) };
+        if !p.is_null() {
+            let c = CUR.fetch_add(l.size(), Ordering::Relaxed) + l.size();
+            PEAK.fetch_max(c, Ordering::Relaxed);
+        }
+        p
+    }
+    unsafe fn dealloc(&self, p: *mut u8, l: Layout) {
+        unsafe { System.dealloc(p, l) };
+        CUR.fetch_sub(l.size(), Ordering::Relaxed);
+    }
+    unsafe fn alloc_zeroed(&self, l: Layout) -> *mut u8 {
+        let p = unsafe { System.alloc_zeroed(l) };
+        if !p.is_null() {
+            let c = CUR.fetch_add(l.size(), Ordering::Relaxed) + l.size();
+            PEAK.fetch_max(c, Ordering::Relaxed);
+        }
+        p
+    }
+    unsafe fn realloc(&self, p: *mut u8, l: Layout, new_size: usize) -> *mut u8 {
+        let q = unsafe { System.realloc(p, l, new_size) };
+        if !q.is_null() {
+            if new_size >= l.size() {
+                let c = CUR.fetch_add(new_size - l.size(), Ordering::Relaxed) + (new_size - l.size());
+                PEAK.fetch_max(c, Ordering::Relaxed);
+            } else {
+                CUR.fetch_sub(l.size() - new_size, Ordering::Relaxed);
+            }
+        }
+        q
+    }
+}
+#[global_allocator]
+static ALLOC: Counting = Counting;
+pub fn alloc_current() -> usize { CUR.load(Ordering::Relaxed) }
+pub fn alloc_reset_peak() { PEAK.store(CUR.load(Ordering::Relaxed), Ordering::Relaxed) }
+pub fn alloc_peak() -> usize { PEAK.load(Ordering::Relaxed) }
 
 fn arg(args: &[String], name: &str) -> Option<String> {
     args.iter().position(|a| a == name).and_then(|p| args.get(p + 1).cloned())
@@ -132,12 +179,42 @@ fn main() {
             use std::io::Write;
             let mut f = std::fs::OpenOptions::new().create(true).append(true).open(&out).unwrap();
             let mut status = json!({"done": 0, "error": null});
+            // wall-clock watchdog: a scenario that makes no progress for VH_WALL_LIMIT seconds (an endless loop in the
+            // code under test is not bounded by the virtual clock) is recorded as a hang and the process exits with 3
+            let limit: u64 = std::env::var("VH_WALL_LIMIT").ok().and_then(|s| s.parse().ok()).unwrap_or(120);
+            static STARTED: std::sync::atomic::AtomicU64 = std::sync::atomic::AtomicU64::new(0);
+            static CURRENT: AtomicUsize = AtomicUsize::new(0);
+            let now_s = || std::time::SystemTime::now().duration_since(std::time::UNIX_EPOCH).unwrap().as_secs();
+            {
+                let out = out.clone();
+                std::thread::spawn(move || loop {
+                    std::thread::sleep(std::time::Duration::from_millis(500));
+                    let st = STARTED.load(Ordering::Relaxed);
+                    if st != 0 && now_s().saturating_sub(st) > limit {
+                        let n = CURRENT.load(Ordering::Relaxed);
+                        let mut f = std::fs::OpenOptions::new().create(true).append(true).open(&out).unwrap();
+                        let log = scen::global().sim.core.0.try_lock().map(|mut c| std::mem::take(&mut c.log)).unwrap_or_default();
+                        if log.first().map(|e| e["ev"] != "Reset").unwrap_or(true) {
+                            writeln!(f, "{}", json!({"ev": "Reset", "name": "hang", "t": 0})).unwrap();
+                        }
+                        for e in &log {
+                            writeln!(f, "{}", serde_json::to_string(e).unwrap()).unwrap();
+                        }
+                        writeln!(f, "{}", json!({"ev": "SimError", "scenario": n, "err": format!("hang: scenario did not finish within {limit} s of wall-clock time")})).unwrap();
+                        f.flush().ok();
+                        std::process::exit(3);
+                    }
+                });
+            }
             for (n, line) in text.lines().enumerate() {
                 if n < start || line.trim().is_empty() {
                     continue;
                 }
                 let sc: Value = serde_json::from_str(line).expect("scenario json");
+                CURRENT.store(n, Ordering::Relaxed);
+                STARTED.store(now_s(), Ordering::Relaxed);
                 let res = std::panic::catch_unwind(|| scen::run_scenario(&sc));
+                STARTED.store(0, Ordering::Relaxed);
                 match res {
                     Ok((log, err)) => {
                         for e in &log {
@@ -151,6 +228,15 @@ fn main() {
                     }
                     Err(p) => {
                         let msg = p.downcast_ref::<String>().cloned().or_else(|| p.downcast_ref::<&str>().map(|s| s.to_string())).unwrap_or("panic".into());
+                        // the events recorded up to the panic (starting with the scenario's Reset)
+                        let log = scen::global().sim.core.0.try_lock().map(|mut c| std::mem::take(&mut c.log))
+                            .unwrap_or_else(|e| match e { std::sync::TryLockError::Poisoned(p) => std::mem::take(&mut p.into_inner().log), _ => vec![] });
+                        if log.first().map(|e| e["ev"] != "Reset").unwrap_or(true) {
+                            writeln!(f, "{}", json!({"ev": "Reset", "name": sc["name"], "t": 0})).unwrap();
+                        }
+                        for e in &log {
+                            writeln!(f, "{}", serde_json::to_string(e).unwrap()).unwrap();
+                        }
                         writeln!(f, "{}", json!({"ev": "SimError", "scenario": n, "err": format!("panic: {msg}")})).unwrap();
                         status = json!({"done": n + 1, "error": format!("panic: {msg}"), "at": n});
                         break;
